@@ -286,10 +286,12 @@ def prepare_slice_for_replace(
     node = parent.copy(slice.content)
     for i in range(extra - 1, -1, -1):
         node = along.node(i).copy(Fragment.from_(node))
-    return {
-        "start": node.resolve_no_cache(slice.open_start + extra),
-        "end": node.resolve_no_cache(node.content.size - slice.open_end - extra),
-    }
+    start = node.resolve_no_cache(slice.open_start + extra)
+    end = node.resolve_no_cache(node.content.size - slice.open_end - extra)
+    if start.depth != along.depth or end.depth != slice.open_end + extra:
+        msg = "Slice open depths exceed the depth of its content"
+        raise ReplaceError(msg)
+    return {"start": start, "end": end}
 
 
 from . import node as pm_node  # noqa: E402
